@@ -539,6 +539,14 @@ def c02(rep, tier, seed, wd):
                 m = mutate(m, rng)
             muts.append({"bytes": m, "src": "mutant of generated message %d" % g["id"]})
     gcs = [{"bytes": g["bytes"], "src": "generated message %d" % g["id"]} for g in gm]
+    # a parser is a function of the buffer alone: each original is parsed right before its own mutants
+    per = len(muts) // max(1, len(gcs))
+    inter = []
+    for k, g in enumerate(gcs):
+        inter.append(g)
+        inter += muts[k * per:(k + 1) * per]
+    n_mut = len(muts)
+    gcs, muts = inter, muts[len(gm) * per:]
     huge = huge_messages(rng, 3 if tier == "quick" else 5)
     for hm in list(huge):
         for _ in range(2):
@@ -548,10 +556,10 @@ def c02(rep, tier, seed, wd):
     report_must(rep, "C02", triples, "case")
     acc = sum(1 for (_c, o, e, _h) in triples if e["parse"]["ok"])
     rep.add_cov(states=st, transitions=max(tr, 1), traces_validated_against_impl=len(allc),
-                enumerated_skeletons=n_enum, generated=len(gcs), mutants=len(muts), accepted_by_spec=acc,
+                enumerated_skeletons=n_enum, generated=len(gm), mutants=n_mut, accepted_by_spec=acc,
                 distinct_buffers=distinct(allc),
                 samples=[{"bytes": allc[5]["bytes"], "as": allc[5].get("as"), "defect": allc[5].get("defect")},
-                         {"mutant_bytes_len": len(muts[0]["bytes"])}],
+                         {"src": gcs[1]["src"], "bytes_len": len(gcs[1]["bytes"])}],
                 rule="TLC (MCStunMessage) enumerates every message skeleton (16 attribute letters incl. integrity/fingerprint of right and wrong lengths, 13 header variants, last-attribute defects) up to the configured depth and checks Parse.ok <=> WellFormed, ErrorIsACause, ExposureInv on each; each skeleton, each builder-generated message and byte-level mutants of those are parsed by the implementation and judged by the TLA+ reference decoder (StunMessageJudge): verdict, error variant within the justified causes, class/method/id, exposed (type,value) sequence, first-match lookups")
     rep.assumptions += ["TLC + Json/IOUtils trusted; mutants are sampled", "error byte counts of mid-body truncations are as-is (not alarmed)"]
 
@@ -598,7 +606,8 @@ def c17(rep, tier, seed, wd):
 
 def police_sets(types_present, rng, k):
     alpha = sorted(set(types_present) | {6, 36, 32802, 0x7fff, 0x8000, 0xffff, 0})
-    out = [[[], []], [alpha, []], [alpha, alpha[:2]]]
+    many = sorted(set(alpha) | set(range(0x0100, 0x0128)))
+    out = [[[], []], [alpha, []], [alpha, alpha[:2]], [many, many]]
     for _ in range(k):
         sup = [t for t in alpha if rng.random() < 0.6]
         req = [t for t in alpha if rng.random() < 0.25]
@@ -869,7 +878,10 @@ def attr_cases(tier, rng):
         for port in [0, 1, 0x2112, 0x2113, 0xffff, 0x8000] + [rng.randrange(65536) for _ in range(20)]:
             for ip in ([0, 0, 0, 0], [255] * 4, [0x21, 0x12, 0xa4, 0x42], [rng.randrange(256) for _ in range(4)]):
                 add(ty, [0, 1, port >> 8, port & 255] + ip, src="v4 address")
-            for ip in ([0] * 16, [255] * 16, [0x21, 0x12, 0xa4, 0x42] + TID0, [rng.randrange(256) for _ in range(16)]):
+            v4m = [0] * 10 + [255, 255, 192, 0, 2, 1]                       # ::ffff:192.0.2.1
+            xkey = [0x21, 0x12, 0xa4, 0x42] + TID0
+            v4m_wire = [a ^ b for a, b in zip(v4m, xkey)]                   # its XORed form reads ::ffff:... under TID0
+            for ip in ([0] * 16, [255] * 16, [0x21, 0x12, 0xa4, 0x42] + TID0, v4m, v4m_wire, [0] * 12 + [10, 0, 0, 1], [rng.randrange(256) for _ in range(16)]):
                 for tid in (TID0, [0] * 12, [255] * 12, [rng.randrange(256) for _ in range(12)]):
                     add(ty, [0, 2, port >> 8, port & 255] + ip, tid=tid, src="v6 address")
     # (e) password algorithms: ids, parameter lengths, trailing bytes, lists
@@ -879,6 +891,11 @@ def attr_cases(tier, rng):
             add(32770, [0, alg, 0, plen] + [0] * plen, src="password algorithms")
             add(32770, [0, 1, 0, 0, 0, alg, 0, plen] + [0] * plen, src="password algorithms")
     add(29, [0, 1, 0, 0, 0, 0, 0, 0], src="password algorithm trailing bytes")
+    add(32770, [0, 1, 0, 4, 0, 2, 0, 0], src="password algorithms: parameters that read like another entry")
+    add(32770, [0, 2, 0, 8, 0, 1, 0, 0, 0, 2, 0, 0], src="password algorithms: parameters that read like two entries")
+    add(29, [0, 1, 0, 4, 0, 2, 0, 0], src="password algorithm with parameters")
+    add(10, [0, 0x24, 0, 0x25, 0x80, 0x2a, 0, 6], src="unknown attributes, unsorted")
+    add(10, [0, 6, 0, 6, 0x80, 0x2a, 0, 6], src="unknown attributes, repeated")
     add(29, [1, 1, 0, 0], src="password algorithm high byte")
     add(32770, [0, 1, 0, 0, 0, 2, 0, 0, 0, 2, 0, 0], src="password algorithms list")
     # (f) unknown-attributes lists, fixed-size blobs with random content
@@ -958,6 +975,8 @@ def compare_attr(case, obs, exp):
                 want = {"fam": want["fam"], "ip": want["ip"], "port": want["port"]}
             if got != want:
                 must.append((["C13", "C08"] if ty == 32 else ["C08"], "field %s: impl %s spec %s" % (k, str(got)[:120], str(want)[:120])))
+    if d.get("has_all") is False:
+        must.append((["C08"], "UNKNOWN-ATTRIBUTES: has_attribute() denies a type that is in the decoded list %s" % d.get("list")))
     canon = exp["canon"]
     if d.get("re") != canon:
         must.append((["C13", "C08"] if ty == 32 else ["C08"], "re-encoding through the constructor: %s, canonical %s" % (str(d.get("re"))[:100], canon[:30])))
